@@ -663,9 +663,31 @@ std::vector<K> gen_keys(TapeReader &t, const GenOpts &o, KeyMeta &meta) {
     auto block = [&](size_t budget) {
         if (budget == 0) return;
         meta.block_starts.push_back(m.size());
-        static const unsigned kw[] = {3, 3, 3, 3, 3, 2, 1, 2, 4}, kw_dup[] = {8, 3, 3, 3, 3, 2, 1, 2, 3};
+        static const unsigned kw[] = {3, 3, 3, 3, 3, 2, 1, 2, 4, 1}, kw_dup[] = {8, 3, 3, 3, 3, 2, 1, 2, 3, 1};
         unsigned kind = (unsigned) (o.dup_heavy ? t.weighted(kw_dup) : t.weighted(kw));
         switch (kind) {
+            case 9: { // MULT: keys at small integer multiples of the distance covered so far (x, 2x, 3x, 4x ... measured from the first key):
+                      // proportional abscissas make the builder's slopes - ratios of differences - tie exactly although written as
+                      // different fractions, at key differences far beyond what a double holds
+                size_t c = std::min<size_t>(1 + t.below(6), budget);
+                rec << " MULT(";
+                if (m.empty()) push();
+                for (size_t i = 0; i < c; ++i) {
+                    i128 rel = cur - m.front();
+                    if (rel <= 0) { // nothing covered yet: open the distance with a log-uniform jump
+                        if (!advance(1 + (i128) t.loguniform(std::min(60u, lat.width_bits - 2)))) break;
+                        push();
+                        rec << "jump ";
+                        continue;
+                    }
+                    unsigned k = 2 + (unsigned) t.below(4);
+                    if (!advance(rel * (i128) (k - 1))) break; // front + rel*k
+                    push();
+                    rec << "x" << k << " ";
+                }
+                rec << ")";
+                break;
+            }
             case 8: { // LOGGAP: every gap log-uniform in [1, 2^b] (heavy tailed: forces short segments, many levels)
                 unsigned b = 1 + (unsigned) t.below(std::min(62u, lat.width_bits - 1));
                 size_t c = std::min<size_t>(1 + t.below(std::max<size_t>(8 * eps + 8, budget)), budget);
